@@ -413,6 +413,11 @@ var c15FixedCases = []c15Fixed{
 		"a.proto": "syntax = \"proto2\";\nmessage T {}\n",
 		"b.proto": "syntax = \"proto2\";\npackage a;\nimport \"a.proto\";\nmessage Ext { extensions 100 to 199; }\nextend Ext { optional int32 T = 100; }\nmessage M { optional T f = 1; }\n",
 	}},
+	{"fixed/package-name-at-package-scope-is-skipped", map[string]string{
+		"r.proto": "syntax = \"proto2\";\nmessage c {}\n",
+		"p.proto": "syntax = \"proto2\";\npackage a.b.c;\nmessage Other {}\n",
+		"x.proto": "syntax = \"proto2\";\npackage a.b;\nimport \"r.proto\";\nimport \"p.proto\";\nmessage M { optional c f = 1; }\n",
+	}},
 	{"fixed/non-type-service-at-package-scope-is-skipped", map[string]string{
 		"a.proto": "syntax = \"proto2\";\npackage a;\nenum T { Z = 0; }\n",
 		"b.proto": "syntax = \"proto2\";\npackage a.b;\nimport \"a.proto\";\nmessage M { optional T f = 1; }\nservice T {}\n",
